@@ -32,11 +32,6 @@ import CxVerif.Impl.Drg
 namespace Cx.Driver.Stream
 open Cx Cx.Impl Cx.Impl.StreamCtx
 
-/-- switch to `true` once /repo's portable `init` loads 16-byte keys (defect a) -/
-def portableFixed : Bool := false
-/-- switch to `true` once /repo's `Drg::fill_bytes/fill_slice` overwrite the buffer (defect b) -/
-def drgFixed : Bool := false
-
 def natLt (bound : Nat) (s : String) : Option Nat := (s.toNat?).bind fun n => if n < bound then some n else none
 
 def progToks (s : String) : List String := if s == "-" then [] else s.splitOn ";"
@@ -164,7 +159,7 @@ def engImpl (which : String) (R : Nat) (key nonce : Bytes) (ops : List EOp) : Op
       | .ok s => runEng ChaCha.sse2Engine R s ops []
       | .error e => e)
   else if which == "portable" then
-    some (match (if portableFixed then ChaCha.Reference.initFixed key nonce else ChaCha.Reference.init key nonce) with
+    some (match ChaCha.Reference.init key nonce with
       | .ok s => runEng ChaCha.referenceEngine R s ops []
       | .error e => e)
   else none
@@ -228,7 +223,7 @@ def ops : List OpEntry := [
      let R ← r.toNat?; let seed ← hexArg s; let reqs ← (progToks p).mapM parseReq
      pure (match Drg.new ChaCha.sse2Engine R seed with
        | .error e => e
-       | .ok c => match Drg.run ChaCha.sse2Engine R drgFixed c reqs with
+       | .ok c => match Drg.run ChaCha.sse2Engine R false c reqs with
          | .ok (_, os) => joinStr (os.map outStr)
          | .error e => e)),
    h3 (fun r s p => do
